@@ -44,6 +44,8 @@ pub enum KeyTy {
     SpannedStr,
     /// reader only: a newtype struct around `Spanned<String>` as the key type
     NewtypeSpanned(String),
+    /// reader only: `Spanned<i64>` as the key type (integer keys are rejected with and without the wrapper)
+    SpannedI64,
     I64,
     Bool,
     Char,
@@ -138,6 +140,7 @@ impl Ty {
             Ty::Map(k, t) => Ty::Map(match k {
                 KeyTy::SpannedStr => KeyTy::Str,
                 KeyTy::NewtypeSpanned(n) => KeyTy::NewtypeStr(n.clone()),
+                KeyTy::SpannedI64 => KeyTy::I64,
                 k => k.clone(),
             }, Box::new(t.despanned())),
             Ty::Newtype(n, t) => Ty::Newtype(n.clone(), Box::new(t.despanned())),
